@@ -103,6 +103,9 @@ func runSeq(owners ...string) func(t *testing.T, scAny any, trace bool) *Outcome
 		if sc.Race != nil {
 			return runAttrRace(t, sc, trace)
 		}
+		if sc.CRace != nil {
+			return runCreateRace(t, sc, trace)
+		}
 		o := &Outcome{}
 		res := Bubble(t, sc.Sched.config(trace), nil, func() {
 			simrt.Event("scenario %x", simrt.Hash(hashBytes(mustJSON(sc))))
@@ -216,6 +219,9 @@ func shrinkSeq(scAny any) []any {
 	}
 	if sc.Race != nil {
 		return shrinkAttrRace(sc)
+	}
+	if sc.CRace != nil {
+		return shrinkCreateRace(sc)
 	}
 	var out []any
 	cp := func() *SeqScn {
@@ -850,6 +856,11 @@ func init() {
 // ----- C03 -----
 
 func genC03(r *simrt.Rand, tier string) any {
+	if r.Pct(20) {
+		// concurrent class: CREATE requests of several clients for one name at once
+		cr := genCreateRace(r)
+		return &SeqScn{Kind: "C03", CRace: cr, Sched: cr.Sched}
+	}
 	sc := &SeqScn{Kind: "C03", Cfg: genCfg(r), Cred: RootCred, ThinkM: genThink(r), Sched: SeqSched(r.Uint64())}
 	sc.Tree = []TreeEnt{
 		{Path: "/f", Kind: "file", Mode: 0o644, Size: 1 + r.Int(5000), Seed: r.Uint64()},
@@ -924,7 +935,7 @@ func genC03(r *simrt.Rand, tier string) any {
 func init() {
 	Register(&Prop{
 		ID: "C03", Level: "exploration",
-		Rule:    "one case = a history of 4-18 CREATE calls (every mode UNCHECKED/GUARDED/EXCLUSIVE, sattr3 subsets incl. size/mode/uid/times, verifiers equal to or different from the creating call's) against names occupied by nothing, a regular file with unique data, a directory, a symlink (dangling or not), interleaved with READ/REMOVE/clock advances; oracle: GUARDED on existing => NFS3ERR_EXIST, EXCLUSIVE on existing => OK only for the creating verifier, existing file bytes identical afterwards unless size was set, backend tree == model; 30% of the cases inject 1-2 backend errors (lstat/stat at the existence check, create, open, truncate, chmod, chown, close; or the remove of a REMOVE between two CREATEs) inside some request: a faulted CREATE may fail with any status but must still not succeed where the mode forbids it nor change the data of an existing file; a quarter of these instead shorten every per-procedure time-out to 100 ms-2 s and let one backend call of some CREATE (create, open, lstat, chmod, close, truncate) take 2.5-11.5 s: nothing may happen to the name after the CREATE has been answered; non-trivial = at least one CREATE; distinct by event digest",
+		Rule:    "one case = a history of 4-18 CREATE calls (every mode UNCHECKED/GUARDED/EXCLUSIVE, sattr3 subsets incl. size/mode/uid/times, verifiers equal to or different from the creating call's) against names occupied by nothing, a regular file with unique data, a directory, a symlink (dangling or not), interleaved with READ/REMOVE/clock advances; oracle: GUARDED on existing => NFS3ERR_EXIST, EXCLUSIVE on existing => OK only for the creating verifier, existing file bytes identical afterwards unless size was set, backend tree == model; 30% of the cases inject 1-2 backend errors (lstat/stat at the existence check, create, open, truncate, chmod, chown, close; or the remove of a REMOVE between two CREATEs) inside some request: a faulted CREATE may fail with any status but must still not succeed where the mode forbids it nor change the data of an existing file; a quarter of these instead shorten every per-procedure time-out to 100 ms-2 s and let one backend call of some CREATE (create, open, lstat, chmod, close, truncate) take 2.5-11.5 s: nothing may happen to the name after the CREATE has been answered; a fifth of all cases are the concurrent class: 2-4 clients send CREATE for ONE name at the same time on separate connections (all EXCLUSIVE with 1-3 distinct verifiers, all GUARDED, or mixed with UNCHECKED; name absent or (25%) present with data; 40% followed by a WRITE through the returned handle; 2-4 workers, 0-2 backend stalls of 0.1-40 ms, every interleaving decided by the seeded scheduler) - at most one GUARDED create succeeds, in an all-EXCLUSIVE run all successful creates carry one verifier, GUARDED never succeeds on a pre-existing name, and the pre-existing bytes beyond the longest acknowledged write survive; non-trivial = at least one CREATE; distinct by event digest",
 		Gen:     genC03,
 		New:     func() any { return &SeqScn{} },
 		Run:     runSeq("C03."),
@@ -1521,6 +1532,13 @@ func genC23(r *simrt.Rand, tier string) any {
 	if r.Pct(25) {
 		// a backend that takes fewer bytes than it was given and reports so without an error
 		sc.Faults = append(sc.Faults, simfs.Fault{Op: "File.WriteAt", Nth: 1 + r.Int(2), Kind: "shortok", Short: []int{1, 2, 3, 100, 1000}[r.Int(5)], Repeat: r.Pct(50)})
+	} else if r.Pct(20) {
+		// an appending WRITE that stores its data and then fails (the sync or the close after it), followed at
+		// once by a READ at the old end of file: that READ is before EOF now and returns at least one byte
+		size := uint64(sc.Tree[0].Size)
+		sc.Faults = append(sc.Faults, simfs.Fault{Op: []string{"File.Sync", "Chtimes"}[r.Int(2)], Nth: 1, Kind: "eio"})
+		sc.Ops = append([]Op{{Op: "WRITE", H: 1, Off: size, Count: uint32(1 + r.Int(300)), Seed: r.Uint64(), Stable: 2}, {Op: "READ", H: 1, Off: size, Count: uint32(1 + r.Int(64))},
+			{Op: "READ", H: 1, Off: size - 1, Count: 3}}, sc.Ops...)
 	}
 	return sc
 }
